@@ -246,6 +246,21 @@ func suiteC12(c *Ctx) {
 			}
 		}
 		g2.add(Step{Op: "NH", Name: nil, Stream: 1, Func: 1, WBit: 1, Dir: []byte("H<-E"), Ref: vt, Sid: 1, Sys: []byte{1, 2, 3, 4}})
+		// the wait bit set afterwards: every function parity x every state of the wait bit x both arguments
+		// (a wait bit on a reply is refused whichever way it is asked for)
+		for _, fn := range []int{0, 1, 2, 255} {
+			for _, w := range []int{0, 1, 2} {
+				if w == 1 && fn%2 == 0 {
+					continue
+				}
+				m := g2.add(Step{Op: "NM", Name: []byte("n"), Stream: 7, Func: fn, WBit: w, Dir: []byte("H->E"), Ref: it})
+				g2.add(Step{Op: "SW", Ref: m, B: true})
+				g2.add(Step{Op: "SW", Ref: m, B: false})
+				a := g2.add(Step{Op: "SS", Ref: m, Sid: 9, Sys: []byte{4, 3, 2, 1}})
+				g2.add(Step{Op: "SW", Ref: a, B: true})
+				g2.add(Step{Op: "SW", Ref: a, B: false})
+			}
+		}
 		for _, d := range []string{"H->E", "H<-E", "H<->E", "", "h->e", "E->H", "H->E ", "H<=>E"} {
 			g2.add(Step{Op: "NM", Name: nil, Stream: 1, Func: 1, WBit: 0, Dir: []byte(d), Ref: it})
 		}
@@ -419,7 +434,11 @@ func suiteC18(c *Ctx) {
 				if g.chance(0.15) {
 					sid = []int{-1, -2, 65536}[g.pick(3)]
 				}
-				m2 := g.add(Step{Op: "SS", Ref: m, Sid: sid, Sys: g.sysBytes()})
+				sys := g.sysBytes()
+				if g.chance(0.15) {
+					sys = nil // no bytes at all: four zero bytes, whatever the message carried before
+				}
+				m2 := g.add(Step{Op: "SS", Ref: m, Sid: sid, Sys: sys})
 				if g.chance(0.7) {
 					m = m2
 				}
@@ -1048,6 +1067,35 @@ func monitorC10(c *Ctx, id string, cs Case, e *Exec, final []string) {
 			}
 			seen[v] = true
 		}
+		// an expansion renames by appending: every variable of the result is a variable of the template followed
+		// by index groups (checked when the map holds repeat counts only, so that no value brings a name)
+		if src, ok := e.item(s.Ref); ok {
+			only := len(s.Map) > 0
+			for _, kv := range s.Map {
+				if !strings.HasPrefix(string(kv.K), "...") || kv.V.T != 'i' {
+					only = false
+				}
+			}
+			if only {
+				orig := src.Variables()
+				for _, v := range vs {
+					if strings.HasPrefix(v, "...") {
+						continue
+					}
+					found := false
+					for _, o := range orig {
+						if strings.HasPrefix(v, o) && indexGroupsRe.MatchString(v[len(o):]) {
+							found = true
+							break
+						}
+					}
+					if !found {
+						c.hit(id, cs, "renamed-not-suffixed", fmt.Sprintf("step %d: %q is not a variable of the template %v followed by indices", i, v, orig))
+						break
+					}
+				}
+			}
+		}
 		// remaining ellipses are "..." when alone, "...[k]" in order otherwise
 		var ells []string
 		for _, v := range vs {
@@ -1117,6 +1165,8 @@ func suiteC16(c *Ctx) {
 		c.emit(Case{"listing", g.steps, g.chance(0.35)})
 	}
 }
+
+var indexGroupsRe = regexp.MustCompile(`^(\[\d+\])*$`)
 
 var tokRe = regexp.MustCompile(`"[^"]*"|<|>|[^\s<>]+`)
 
@@ -1272,6 +1322,19 @@ func suiteC11(c *Ctx) {
 		g := c.gen()
 		steps := 6 + g.pick(c.scale(20, 50))
 		var items, msgs, ctls []int
+		if g.chance(0.12) {
+			// a template with an optional wait bit, addressed, from which both wait bits are derived (in either
+			// order, some of them twice): each derived message is a message of its own
+			it := g.tree(treeOpts{depth: g.pick(3), vars: false, maxLeaf: 5})
+			t := g.add(Step{Op: "NM", Name: []byte("Tpl"), Stream: g.pick(128), Func: 1 + 2*g.pick(128), WBit: 2, Dir: []byte("H->E"), Ref: it})
+			t = g.add(Step{Op: "SS", Ref: t, Sid: g.sessionID(), Sys: g.sysBytes()})
+			b := g.chance(0.5)
+			for k := 0; k < 2+g.pick(3); k++ {
+				msgs = append(msgs, g.add(Step{Op: "SW", Ref: t, B: b}))
+				b = !b
+			}
+			items = append(items, it)
+		}
 		for len(g.steps) < steps {
 			switch g.pick(10) {
 			case 0, 1, 2:
@@ -1303,7 +1366,15 @@ func suiteC11(c *Ctx) {
 					m := msgs[g.pick(len(msgs))]
 					switch g.pick(3) {
 					case 0:
-						msgs = append(msgs, g.add(Step{Op: "SW", Ref: m, B: g.chance(0.5)}))
+						// both wait bits from the same message: the two results are siblings, not one object
+						b := g.chance(0.5)
+						a1 := g.add(Step{Op: "SW", Ref: m, B: b})
+						a2 := g.add(Step{Op: "SW", Ref: m, B: !b})
+						msgs = append(msgs, a1, a2)
+						if g.chance(0.6) {
+							msgs = append(msgs, g.add(Step{Op: "SS", Ref: a2, Sid: g.sessionID(), Sys: g.sysBytes()}))
+							msgs = append(msgs, g.add(Step{Op: "SS", Ref: a1, Sid: g.sessionID(), Sys: g.sysBytes()}))
+						}
 					case 1:
 						msgs = append(msgs, g.add(Step{Op: "SS", Ref: m, Sid: g.sessionID(), Sys: g.sysBytes()}))
 					default:
